@@ -557,11 +557,44 @@ func c08R3(p *Prog, r *Report) {
 		}
 		r.Fn(FuncName(fn))
 		var vcall *ssa.Call
-		Instrs(fn, func(in ssa.Instruction) {
-			if c, ok := in.(*ssa.Call); ok && c.Call.StaticCallee() == valid {
-				vcall = c
+		findValid := func(f *ssa.Function) *ssa.Call {
+			var out *ssa.Call
+			Instrs(f, func(in ssa.Instruction) {
+				if c, ok := in.(*ssa.Call); ok && c.Call.StaticCallee() == valid {
+					out = c
+				}
+			})
+			return out
+		}
+		vcall = findValid(fn)
+		var tail *ssa.Call // the call through which the check's verdict is returned, when it sits in a helper
+		if vcall == nil {
+			// the check may sit in a helper method of the processor whose error the configuring
+			// function returns as its own
+			Instrs(fn, func(in ssa.Instruction) {
+				c, ok := in.(*ssa.Call)
+				if !ok || vcall != nil {
+					return
+				}
+				h := c.Call.StaticCallee()
+				if !isModuleFn(h) || len(c.Call.Args) == 0 || resolveCell(c.Call.Args[0]) != ssa.Value(fn.Params[0]) {
+					return
+				}
+				returned := false
+				for _, ref := range *c.Referrers() {
+					if ret, isRet := ref.(*ssa.Return); isRet && len(ret.Results) > 0 && ret.Results[len(ret.Results)-1] == ssa.Value(c) {
+						returned = true
+					}
+				}
+				if v := findValid(h); v != nil && returned {
+					vcall, tail = v, c
+				}
+			})
+			if vcall != nil {
+				fn = vcall.Parent()
+				r.Fn(FuncName(fn))
 			}
-		})
+		}
 		if vcall == nil {
 			r.Bad("C08.R3", name+" checks validity", p.Pos(fn.Pos()), "no call of the validity check: an invalid length/threshold combination is accepted and the edge finder indexes outside the block")
 			continue
@@ -611,7 +644,7 @@ func c08R3(p *Prog, r *Report) {
 					stored = true
 				}
 			}
-			if c, ok := in.(*ssa.Call); ok && c.Call.StaticCallee() != nil && InstrReaches(c, vcall) {
+			if c, ok := in.(*ssa.Call); ok && c.Call.StaticCallee() != nil && c != vcall && InstrReaches(c, vcall) {
 				eff := p.TransEffects(c.Call.StaticCallee(), nil, nil)
 				for k := range eff.W {
 					if k.Owner == "EMTState" {
@@ -620,6 +653,20 @@ func c08R3(p *Prog, r *Report) {
 				}
 			}
 		})
+		if tail != nil && !stored {
+			// stored by the configuring function before it hands over to the helper
+			caller := tail.Parent()
+			Instrs(caller, func(in ssa.Instruction) {
+				if st, ok := in.(*ssa.Store); ok && InstrReaches(st, tail) {
+					if f := emtField(st.Addr); f != "" {
+						stored = true
+					}
+					if _, f, _, ok := FieldOf(st.Addr); ok && (f == "EMTState" || f == "TriggerState" || f == "NSamples") {
+						stored = true
+					}
+				}
+			})
+		}
 		r.Check(stored, "C08.R3", name+": the check looks at the new state", p.InstrPos(vcall), "state stored before the check", "the validity check runs before the new values are stored")
 	}
 }
